@@ -61,15 +61,15 @@ META = {
         "node class that appends ';' may only be built behind a test of self.rawdata.startswith(';', start + len(prefix) + "
         "len(name)) (start = the attribute an updatepos override sets), the other outcome stores prefix + name verbatim. Marked "
         "sections: unknown_decl must write back '<![' and the terminator html.parser stripped (']]>' for its keyword set, ']>' "
-        "otherwise; both read from _markupbase.parse_marked_section). convert_charrefs is False on the whole path; the void "
+        "otherwise; both read from _markupbase.parse_marked_section), selected by the lower-cased text before the *first* '[' of the reported text. convert_charrefs is False on the whole path; the void "
         "table contains the 13 WHATWG void elements plus 'param'. "
         "(R4) With inplace false no mutating, iterating or returning use in strip() can see the element itself; deepcopy does not "
-        "write self; the constructor copies the attribute mapping. "
+        "write self; the constructor copies the attribute mapping, and a copy started with copy.copy(self) replaces every mutable field (attrs, _children) on the copy. "
         "(R5) Writers of the open-element stack have a role derived from the callback map; the opening function, run symbolically "
         "with Tree helpers inlined, ends as [.., top] -> [.., top, new] with new appended to top; childless-node functions leave "
         "the stack unchanged; the closing function is run as a decision table over abstract stacks [Root, e1..] of depth 1-4 x every "
         "name-match pattern *including a root that carries the closing tag's name*: it must pop exactly down to the innermost "
-        "matching open element, nothing otherwise, and never the root; a per-name counter consulted by the closing function must be "
+        "matching open element, nothing otherwise, and never the root (the root's name attribute is modelled, so a guard `name == self.name` is seen to hide open elements of that name); a per-name counter consulted by the closing function must be "
         "+1 at the push and -1 for every popped element. "
         "(R6) No exception escapes tokenize_html, any overridden callback or Element.insert/__setitem__ (escape analysis; the "
         "HTMLParser.feed entry is discharged by the parse_marked_section override catching AssertionError). "
@@ -89,8 +89,7 @@ META = {
         "what get_starttag_text() returns (trusted: the source slice of the start tag); end tags are rebuilt from the lower-cased "
         "name, so `</DIV>` / `</div >` come back as `</div>` (outside the well-formed grammar); bogus comments and other "
         "non-canonical emissions of the tokenizer (listed in the evidence); input that ends inside an unterminated construct "
-        "(flushed as data by close() in feed(); C17's subject); the selector of the marked-section terminator beyond its keyword "
-        "set (how the keyword is cut out of the reported text); legacy void elements other than 'param'; the exact recursion "
+        "(flushed as data by close() in feed(); C17's subject); legacy void elements other than 'param'; the exact recursion "
         "limit (R9 reports the recursive traversals, not the depth at which they fail)"
     ),
     "trusted_base": [
@@ -484,7 +483,14 @@ def _fresh_ctor(P: Ctx, value: ast.expr, fi: FunctionInfo) -> str | None:
         return "constructed here: self.__class__(...)"
     if isinstance(f, ast.Attribute) and f.attr == "deepcopy" and not value.args and not value.keywords:
         return "result of deepcopy() (fresh by R2's return check)"
+    if _is_shallow_copy(value, fi):
+        return "a new object (copy.copy(self)); what it shares with self is judged by R4"
     return None
+
+
+def _is_shallow_copy(value: ast.expr, fi: FunctionInfo) -> bool:
+    """copy.copy(self) / copy(self): a distinct object whose fields are the very objects of self."""
+    return isinstance(value, ast.Call) and fi.module.resolve(dotted(value.func) or "") == "copy.copy" and len(value.args) == 1 and _is_name(value.args[0], "self") and not value.keywords
 
 
 def _element_receiver(P: Ctx, recv: ast.expr, fi: FunctionInfo) -> bool:
@@ -1548,6 +1554,15 @@ def _judge_marked_sections(P: Ctx, rep: Report, cbmap: dict, mb) -> None:
             kws = frozenset(e.value for e in selector.comparators[0].elts if isinstance(e, ast.Constant))
         if kws is None:
             raise Unsupported(f"{cb.fq}: terminator selected by `{short(selector, 40)}`")
+        where = _keyword_cut(selector.left, payload)
+        if where is None:
+            raise Unsupported(f"{cb.fq}: keyword of the marked section derived by `{short(selector.left, 50)}`")
+        if where[0] != "first":
+            problems.append(f"the keyword is cut out of the reported text at the *last* {where[1]!r} (`{short(selector.left, 50)}`); html.parser scans the name that follows '<![': a section whose body contains {where[1]!r}, e.g. `<![CDATA[a[0]]]>`, gets the wrong terminator")
+        elif where[1] != "[":
+            problems.append(f"the keyword is cut at {where[1]!r}; the section body starts at '['")
+        if not where[2]:
+            problems.append("the keyword is compared without lower-casing; html.parser lower-cases the scanned name (`<![cdata[x]]>`)")
         match = [lit for k2, lit in table if k2 == kws]
         other = [lit for k2, lit in table if k2 != kws]
         if not match:
@@ -1561,6 +1576,39 @@ def _judge_marked_sections(P: Ctx, rep: Report, cbmap: dict, mb) -> None:
         rep.violation("C16.R3", key, site, "unknown_decl: " + "; ".join(problems) + " - `<![CDATA[x<y]]>` is rendered as `<!CDATA[x<y>` (its content becomes live markup) and `<![if !IE]>` as `<!if !IE>`")
     else:
         rep.ok("C16.R3", key, site, f"{got_pre!r} .. " + " / ".join(repr(t) for t in got.values()))
+
+
+def _keyword_cut(e: ast.expr, payload: str) -> tuple[str, str, bool] | None:
+    """('first' | 'last', separator, lower-cased?) if ``e`` is the part of the payload before the first / last separator,
+    possibly stripped and lower-cased: split/partition/index/find versus rsplit/rpartition/rindex/rfind."""
+    lowered = False
+    while isinstance(e, ast.Call) and isinstance(e.func, ast.Attribute) and e.func.attr in ("strip", "rstrip", "lstrip", "lower", "casefold") and not e.args:
+        lowered = lowered or e.func.attr in ("lower", "casefold")
+        e = e.func.value
+    if isinstance(e, ast.Subscript) and isinstance(e.slice, ast.Constant) and e.slice.value == 0 and isinstance(e.value, ast.Call) and isinstance(e.value.func, ast.Attribute):
+        c = e.value
+        base = c.func.value
+        low_in = False
+        while isinstance(base, ast.Call) and isinstance(base.func, ast.Attribute) and base.func.attr in ("strip", "lstrip", "lower", "casefold") and not base.args:
+            low_in = low_in or base.func.attr in ("lower", "casefold")
+            base = base.func.value
+        if _is_name(base, payload) and c.args and isinstance(c.args[0], ast.Constant) and isinstance(c.args[0].value, str):
+            sep = c.args[0].value
+            if c.func.attr in ("split", "partition"):
+                return ("first", sep, lowered or low_in)
+            if c.func.attr in ("rsplit", "rpartition"):
+                # rsplit without maxsplit still yields the first piece at index 0
+                if c.func.attr == "rsplit" and len(c.args) == 1 and not c.keywords:
+                    return ("first", sep, lowered or low_in)
+                return ("last", sep, lowered or low_in)
+    if isinstance(e, ast.Subscript) and isinstance(e.slice, ast.Slice) and e.slice.lower is None and _is_name(e.value, payload):
+        up = e.slice.upper
+        if isinstance(up, ast.Call) and isinstance(up.func, ast.Attribute) and _is_name(up.func.value, payload) and up.args and isinstance(up.args[0], ast.Constant):
+            if up.func.attr in ("index", "find"):
+                return ("first", up.args[0].value, lowered)
+            if up.func.attr in ("rindex", "rfind"):
+                return ("last", up.args[0].value, lowered)
+    return None
 
 
 def _inline_locals(e: ast.expr, fi: FunctionInfo) -> ast.expr:
@@ -2210,6 +2258,27 @@ def r4_copy_before_mutate(corpus: Corpus, rep: Report, tier: str):
             rep.violation("C16.R4", key, fi.module.site(bad), f"`{short(enclosing_stmt(bad), 60)}` modifies the element being copied")
         else:
             rep.ok("C16.R4", key, fi.site())
+    # (c') a copy made by copy.copy(self) shares every field with self: each mutable field must be replaced on the copy
+    mutable = _mutable_fields(P)
+    for fi in _deepcopy_impls(P):
+        for n in walk_local(fi.node):
+            if isinstance(n, ast.Assign) and len(n.targets) == 1 and isinstance(n.targets[0], ast.Name) and _is_shallow_copy(n.value, fi):
+                cv = n.targets[0].id
+                key = f"{fi.fq}|a shallow copy replaces every mutable field"
+                replaced = {}
+                for m2 in walk_local(fi.node):
+                    if isinstance(m2, ast.Assign) and len(m2.targets) == 1 and isinstance(m2.targets[0], ast.Attribute) and _is_name(m2.targets[0].value, cv):
+                        replaced[m2.targets[0].attr] = m2.value
+                shared = []
+                for fld in sorted(mutable):
+                    v2 = replaced.get(fld)
+                    fresh = v2 is not None and (isinstance(v2, (ast.List, ast.Dict, ast.Set, ast.ListComp, ast.DictComp)) or (isinstance(v2, ast.Call) and not _is_self_attr(v2)))
+                    if not fresh:
+                        shared.append(fld)
+                if shared:
+                    rep.violation("C16.R4", key, fi.module.site(n), f"`{short(n, 40)}` copies the references, and {shared} {'is' if len(shared) == 1 else 'are'} not replaced on the copy: the copy and the original share {'that object' if len(shared) == 1 else 'those objects'}, so editing the attributes of a deepcopy()/strip() result alters the original tree")
+                else:
+                    rep.ok("C16.R4", key, fi.module.site(n), f"replaced on the copy: {sorted(set(replaced) & mutable)}")
     # (d) constructors copy the attribute mapping they are given (deepcopy passes self.attrs)
     init = P.element.methods.get("__init__")
     if init is None:
@@ -2235,6 +2304,23 @@ def r4_copy_before_mutate(corpus: Corpus, rep: Report, tier: str):
         else:
             raise Unsupported(f"{init.fq}: attrs value {short(val, 50)}")
     rep.expect_min("C16.R4", 5, "3 uses of the working name in strip + 2 deepcopy bodies + the attrs copy on the pinned tree")
+
+
+def _mutable_fields(P: Ctx) -> set[str]:
+    """Fields of an element that hold a mutable object: assigned in __init__ from a constructor call / list / dict display."""
+    out = set()
+    for ci in P.hier:
+        init = ci.methods.get("__init__")
+        if init is None:
+            continue
+        for n in walk_local(init.node):
+            tgt = n.targets[0] if isinstance(n, ast.Assign) and len(n.targets) == 1 else getattr(n, "target", None)
+            val = getattr(n, "value", None)
+            if isinstance(n, (ast.Assign, ast.AnnAssign)) and _is_self_attr(tgt) and isinstance(val, (ast.List, ast.Dict, ast.Set, ast.Call)):
+                if isinstance(val, ast.Call) and dotted(val.func) in ("str", "int", "bool", "tuple", "frozenset"):
+                    continue
+                out.add(tgt.attr)
+    return out
 
 
 def _can_be_param(e: ast.expr, params: list[str]) -> bool:
@@ -2543,6 +2629,24 @@ def _root_attr(P: Ctx) -> str | None:
     return None
 
 
+def _root_name_attrs(P: Ctx) -> set[str]:
+    """Tree attributes that hold the name given to the root: assigned in __init__ from the parameter the root is built with."""
+    init = P.tree.methods.get("__init__")
+    out: set[str] = set()
+    if init is None:
+        return out
+    rootargs = set()
+    for f in [init] + _tree_callees(P, init):
+        for n in walk_local(f.node):
+            if isinstance(n, ast.Call) and P.hier_class_named(n.func, f) is not None and n.args:
+                rootargs.add(unparse(n.args[0]))
+    for n in walk_local(init.node):
+        if isinstance(n, ast.Assign) and len(n.targets) == 1 and _is_self_attr(n.targets[0]) and isinstance(n.value, ast.Name) and n.value.id in init.params:
+            if n.value.id in rootargs or f"self.{n.targets[0].attr}" in rootargs:
+                out.add(n.targets[0].attr)
+    return out
+
+
 class _Entry:
     """An abstract open element: all that enclose() may look at is whether its name equals the closing tag's."""
 
@@ -2564,6 +2668,7 @@ class _EncloseRun:
         self.stack = [_Entry(m, i) for i, m in enumerate(pattern)]
         self.root = self.stack[0]
         self.root_attr = _root_attr(P)
+        self.root_name_attrs = _root_name_attrs(P)
         self.name_param = [p for p in fi.params if p != "self"][0]
         self.env: dict[str, object] = {}
         self.pops = 0
@@ -2610,6 +2715,8 @@ class _EncloseRun:
             return self.stack
         if _is_self_attr(e) and self.root_attr and e.attr == self.root_attr:
             return self.root  # the root element, which sits at the bottom of the stack
+        if _is_self_attr(e) and e.attr in self.root_name_attrs:
+            return ("rootname",)  # the name the root was given
         if isinstance(e, ast.BinOp) and isinstance(e.op, (ast.Add, ast.Sub)):
             l, r = self.ev(e.left), self.ev(e.right)
             if isinstance(l, int) and isinstance(r, int):
@@ -2633,10 +2740,20 @@ class _EncloseRun:
             op = e.ops[0]
             l, r = e.left, e.comparators[0]
             for a_, b_ in ((l, r), (r, l)):
-                if isinstance(a_, ast.Attribute) and a_.attr == "name" and _is_name(b_, self.name_param):
+                if isinstance(a_, ast.Attribute) and a_.attr == "name" and _is_name(b_, self.name_param) and not _is_self_attr(a_):
                     ent = self.ev(a_.value)
                     if isinstance(ent, _Entry) and isinstance(op, (ast.Eq, ast.NotEq)):
                         return ent.matches if isinstance(op, ast.Eq) else not ent.matches
+            for a_, b_ in ((l, r), (r, l)):
+                if _is_name(a_, self.name_param) and isinstance(op, (ast.Eq, ast.NotEq)):
+                    bv = self.ev(b_)
+                    if bv == ("rootname",):
+                        return self.root.matches == isinstance(op, ast.Eq)  # the closing tag's name equals the root's
+                if isinstance(a_, ast.Attribute) and a_.attr == "name" and isinstance(op, (ast.Eq, ast.NotEq)) and not _is_self_attr(a_):
+                    bv = self.ev(b_) if _is_self_attr(b_) else None
+                    ent = self.ev(a_.value) if bv == ("rootname",) else None
+                    if isinstance(ent, _Entry):
+                        raise Unsupported(f"{self.fi.fq}: an element's name compared with the root's name")
             lv, rv = self.ev(l), self.ev(r)
             if isinstance(op, (ast.Is, ast.IsNot, ast.Eq, ast.NotEq)) and isinstance(lv, _Entry) and isinstance(rv, _Entry):
                 return (lv is rv) == isinstance(op, (ast.Is, ast.Eq))  # Element.__eq__ is identity
@@ -2897,7 +3014,7 @@ def _judge_enclose(P: Ctx, rep: Report, fi: FunctionInfo) -> None:
             rep.ok("C16.R5", key, site, "every pop is paired with one decrement keyed by the popped element's name, on every row")
     key = f"{fi.fq}|the root is never treated as an open element"
     if bad_root:
-        rep.violation("C16.R5", key, site, f"{fi.qualname}: {bad_root} - with tokenize_html(text, name=N) an end tag `</N>` closes every open element and the root; the next event finds an empty stack (IndexError in last()) or the rest of the text is attached nowhere")
+        rep.violation("C16.R5", key, site, f"{fi.qualname}: {bad_root} - with tokenize_html(text, name=N) the root is not an open element (popping it leaves an empty stack: IndexError in last()), while an open element named N still is one and `</N>` must close it")
     else:
         rep.ok("C16.R5", key, site, "rows in which the root carries the closing tag's name behave as if it did not")
     key = f"{fi.fq}|no open element matches: nothing is popped"
@@ -4039,6 +4156,26 @@ def mutants(corpus: Corpus):
         add("c16-revert-root-is-not-an-open-element", "C16.R5", rt, " and ".join(unparse(v) for v in keep), "the root is never treated")
     else:
         out.append(("c16-revert-root-is-not-an-open-element", "enclose() has no `is not <root>` conjunct"))
+    # classes of partial weakening of those repairs
+    if ud is not None:
+        sp = find_node(ud, lambda n: isinstance(n, ast.Call) and isinstance(n.func, ast.Attribute) and n.func.attr == "split" and len(n.args) == 2)
+        add("c16-marked-section-keyword-cut-at-last-bracket", "C16.R3", sp, (unparse(sp.func.value) + ".rsplit(" + ", ".join(unparse(a_) for a_ in sp.args) + ")") if sp is not None else "", "marked sections re-emit")
+        lw = find_node(ud, lambda n: isinstance(n, ast.Call) and isinstance(n.func, ast.Attribute) and n.func.attr == "lower" and not n.args)
+        add("c16-marked-section-keyword-not-lowered", "C16.R3", lw, unparse(lw.func.value) if lw is not None else "", "marked sections re-emit")
+    if rt is not None:
+        keep_ = [v for v in rt.values if not (isinstance(v, ast.Compare) and isinstance(v.ops[0], (ast.IsNot, ast.NotEq)) and "self." in unparse(v))]
+        first_ = next((x for x in en.node.body if not (isinstance(x, ast.Expr) and isinstance(x.value, ast.Constant))), None)
+        ep_ = [p_ for p_ in en.params if p_ != "self"]
+        rn_ = sorted(_root_name_attrs(P))
+        if first_ is not None and ep_ and rn_:
+            out.append(Mutant("c16-root-guard-hoisted-to-name-test", "C16.R5", m.rel, multi([(rt, " and ".join(unparse(v) for v in keep_)), (first_, f"if {ep_[0]} == self.{rn_[0]}:\n            return False\n        " + ast.get_source_segment(src, first_))]), expect="the root is never treated"))
+    dcf = E["deepcopy"]
+    ca = find_node(dcf, lambda n: isinstance(n, ast.Assign) and isinstance(n.value, ast.Call) and unparse(n.value.func) == "self.__class__")
+    if ca is not None and isinstance(ca.targets[0], ast.Name):
+        cvn = ca.targets[0].id
+        add("c16-deepcopy-from-shallow-copy", "C16.R4", ca, f"{cvn} = copy.copy(self)\n        {cvn}._parent = None\n        {cvn}._children = []", "a shallow copy replaces", tail="\n\nimport copy\n")
+    else:
+        out.append(("c16-deepcopy-from-shallow-copy", "deepcopy no longer constructs the copy with self.__class__(...)"))
     # ---- R9 (class: a traversal that calls itself per nesting level)
     fy = find_node(E["find"], lambda n: isinstance(n, ast.Expr) and isinstance(n.value, ast.Yield))
     fit = find_node(E["find"], lambda n: isinstance(n, ast.Assign) and unparse(n.targets[0]) == "iterator" and "walk" in unparse(n.value))
